@@ -94,6 +94,39 @@ def new_root(tag="w"):
     return root
 
 
+def sweep_stale_roots(max_age_s=1800):
+    """Remove scratch worlds that a crashed or killed earlier batch left behind (a world lives for seconds)."""
+    base = scratch_base()
+    now = time.time()
+    try:
+        names = os.listdir(base)
+    except OSError:
+        return
+    for n in names:
+        if not n.startswith("blsim-0"):
+            continue
+        full = os.path.join(base, n)
+        try:
+            if now - os.lstat(full).st_mtime > max_age_s:
+                rm_root(full)
+        except OSError:
+            pass
+
+
+def remove_roots_of(pids):
+    base = scratch_base()
+    pre = tuple("blsim-%08d-" % p for p in pids)
+    if not pre:
+        return
+    try:
+        names = os.listdir(base)
+    except OSError:
+        return
+    for n in names:
+        if n.startswith(pre):
+            rm_root(os.path.join(base, n))
+
+
 def rm_root(root):
     # restore permissions so that rmtree works on worlds with unreadable dirs
     for dp, dn, fn in os.walk(root):
